@@ -130,11 +130,37 @@ class Core:
             arr = z3.Lambda([sv.idx], z3.If(z3.And(sv.idx >= 0, sv.idx < sv.n), sv.val, th.dflt))
             t = th.mk_gen(arr, sv.n)
             return t
+        if isinstance(sv, VIter):
+            if sv.static is not None:
+                return self.toVal(VTuple(tuple(sv.static)), st)
+            t = getattr(sv, '_val', None)
+            if t is None:
+                # an iteration source escaping as a value: opaque sequence with the same elements
+                t = th.fresh('iterval')
+                object.__setattr__(sv, '_val', t)
+                i = z3.Int('i!iv')
+                s0 = State(dict(st.env), [])
+                ev = self.toVal(sv.at(i, s0), s0)
+                st.add(th.vlen(t) >= 0, t != th.NoneV)
+                if sv.keep is None:
+                    st.add(th.vlen(t) == sv.n)
+                    st.add(z3.ForAll([i], z3.Implies(z3.And(i >= 0, i < sv.n), z3.And(*(s0.pc + [z3.Select(th.sq_arr(t), i) == ev])))))
+            return t
         raise OutOfSubset(f'cannot reify {type(sv).__name__}')
 
-    def card_facts(self, has):
+    def card_facts(self, has, depth=0):
         th = self.th
-        return [th.card(has) >= 0, (th.card(has) == 0) == (has == th.empty_set)]
+        facts = [th.card(has) >= 0, (th.card(has) == 0) == (has == th.empty_set)]
+        # structural cardinality of small explicit stores: card(store(b,k,true)) = card(b) + [k not in b]
+        if depth < 8 and z3.is_app(has) and has.decl().kind() == z3.Z3_OP_STORE:
+            base, k, v = has.arg(0), has.arg(1), has.arg(2)
+            if z3.is_true(v):
+                facts.append(th.card(has) == th.card(base) + z3.If(z3.Select(base, k), 0, 1))
+                facts.extend(self.card_facts(base, depth + 1))
+            elif z3.is_false(v):
+                facts.append(th.card(has) == th.card(base) - z3.If(z3.Select(base, k), 1, 0))
+                facts.extend(self.card_facts(base, depth + 1))
+        return facts
 
     # -- truthiness -------------------------------------------------------------
     def truth(self, sv: SV, st: State):
